@@ -1095,6 +1095,9 @@ func c03(c *core.Ctx) {
 	c.Clause("C03.6", "signers are looked up in the set the quorum counts: every per-height deputy query of deputynode.Manager takes its nodes from GetDeputiesByHeight(height, true), which cuts the term's node list to DeputyCount")
 	c.Run("one-deputy-set", func() { oneDeputySet(c) })
 
+	c.Clause("C03.7", "one deputy counts once also when its confirms arrive in two packets at the same time: the distinct-signer filter and the save of what it let through hold the engine's chain lock (clause of C19.1, evaluated here as well)")
+	c.Run("filter-and-save-under-one-hold", func() { c03FilterAndSaveUnderOneHold(c) })
+
 	c.NotDecidedf("fork-choice correctness (longest / smallest hash), needSwitchFork's distance arithmetic and the value test `newHead != oldHead` before SetHeadBlock")
 	c.NotDecidedf("'never forks' across nodes (a distributed property); float rounding and integer width of the two-thirds threshold; that CBlock.CollectToParent / UnConfirmBlocks really hold only descendants of the stable block")
 	c.NotDecidedf("that the node's own key always produces the same signature bytes for a hash (deterministic RFC 6979 signing), on which the byte comparison in Block.IsConfirmExist relies for TryConfirm / tryConfirmStable; confirms appended to already stable blocks (tryConfirmStable → appendConfirm) are deduplicated by bytes only, which cannot move the stable pointer")
